@@ -486,5 +486,5 @@ SUBS = [
     Sub("column_scales", check_scales, strategy=_scale_cases, quick=300, thorough=6000, shards=8, max_skip_frac=0.6,
         floors={"scale_ratio>=1e6": 0.05}),
     Sub("tall_near_collinear", check_tall, strategy=_tall_cases, quick=8, thorough=100, shards=8, shrink_quick=False,
-        floors={"n>50000": 0.4}),
+        floors={"n>50000": 0.281}),
 ]
